@@ -32,7 +32,9 @@ type C11Case struct {
 // ---- pattern generator -----------------------------------------------------------------------
 
 var c11Lits = []string{"select", "union", "foo", "fob", "fox", "a", "ab", "abc", "Sel", "SELECT", "sleep", "(", "or", "and", "=", "é", "ſ", "K", "k", "s", "admin", "x", "/etc/passwd", "<script", "on", "1"}
-var c11Classes = []string{"[a-c]", "\\d", "\\s", "\\w", ".", "[^a]", "[a-z0-9]", "\\W", "[[:alpha:]]", "[é-ü]", "\\S", "[\\s\\S]"}
+var c11Classes = []string{"[a-c]", "\\d", "\\s", "\\w", ".", "[^a]", "[a-z0-9]", "\\W", "[[:alpha:]]", "[é-ü]", "\\S", "[\\s\\S]",
+	// classes without any one-byte member except through U+FFFD (which is how RE2 sees an invalid byte)
+	"[^\\x00-\\x7F]", "[\\x{80}-\\x{10FFFF}]", "[^[:ascii:]]", "\\P{Latin}", "[^\\x00-\\x{7FF}]", "[\\x{FFFD}é]"}
 
 func genRxNode(t *rapid.T, depth int) string {
 	max := 9
@@ -182,7 +184,7 @@ func genRxInputs(t *rapid.T, pattern string) [][]byte {
 		if err == nil {
 			s = sampleRegexp(t, re, 0)
 		}
-		switch rapid.IntRange(0, 11).Draw(t, "mut") {
+		switch rapid.IntRange(0, 12).Draw(t, "mut") {
 		case 0, 1, 2: // as sampled: intended match
 		case 3:
 			if len(s) > 0 {
@@ -215,6 +217,20 @@ func genRxInputs(t *rapid.T, pattern string) [][]byte {
 			s = string(rapid.SliceOfN(rapid.Byte(), 0, 12).Draw(t, "rand"))
 		case 11:
 			s = strings.ToUpper(s)
+		case 12:
+			// every non-ASCII character as one raw byte (Latin-1 style): invalid UTF-8 that RE2 reads as U+FFFD
+			var b []byte
+			for _, r := range s {
+				switch {
+				case r < 0x80:
+					b = append(b, byte(r))
+				case r < 0x100:
+					b = append(b, byte(r))
+				default:
+					b = append(b, 0xff)
+				}
+			}
+			s = string(b)
 		}
 		inputs = append(inputs, []byte(s))
 	}
